@@ -32,6 +32,11 @@ def roundup(offset: int, alignment: int) -> int:
     """Round up a number to a provided alignment."""
     return int(ceil(offset / alignment) * alignment)
 
+def _high_bit(value):
+    """Return the index of the highest bit set in the value."""
+    return value.bit_length() - 1
+
+
 def decompose(flag, value):
     """Extract all members from the value."""
     # _decompose is only called if the value is not named
